@@ -329,6 +329,14 @@ func (ev *Ev) eqSpec(a, b *Val) *Term {
 		a = ev.fr.makeIface(nil, a, a.T, b.T)
 	}
 	if a.K != b.K {
+		// a Go byte array compared with a specification-level array value (result of a spec function, a model field):
+		// both sides as little-endian integers
+		if a.K == KArr && b.K == KMath && b.X.S == SInt {
+			return Eq(arrAsInt(a), b.X)
+		}
+		if b.K == KArr && a.K == KMath && a.X.S == SInt {
+			return Eq(a.X, arrAsInt(b))
+		}
 		if a.X != nil && b.X != nil && a.X.S == b.X.S && (a.K == KArr || a.K == KMath) && (b.K == KArr || b.K == KMath) {
 			return eqArr(a, b)
 		}
@@ -529,7 +537,11 @@ func (ev *Ev) index(e *SExpr) *Val {
 		// model map: base.X is an array term
 		if base.X.S.IsArr() {
 			k := ev.eval(e.Args[1])
-			x := Select(base.X, k.X)
+			kt := k.X
+			if k.K == KArr && base.X.S.Idx == SInt {
+				kt = arrAsInt(k)
+			}
+			x := Select(base.X, kt)
 			return termVal(x)
 		}
 	}
@@ -567,9 +579,9 @@ func (ev *Ev) quant(e *SExpr) *Val {
 			bvs = append(bvs, b)
 			env[v.Name] = boolVal(b)
 		case "arr":
-			b := BoundVar(v.Name, SArr(SInt, SInt))
+			b := BoundVar(v.Name, SInt)
 			bvs = append(bvs, b)
-			env[v.Name] = &Val{K: KMath, T: mathT, X: b}
+			env[v.Name] = mathVal(b)
 		default:
 			t := ev.c.resolveType(v.Type, ev.pkg)
 			if t == nil {
@@ -937,7 +949,11 @@ func (ev *Ev) applySpecFn(sf *SpecFn, args []*SExpr) *Val {
 	if sf.Body == nil {
 		var ts []*Term
 		for _, a := range avs {
-			ts = append(ts, a.X)
+			if a.K == KArr {
+				ts = append(ts, arrAsInt(a))
+			} else {
+				ts = append(ts, a.X)
+			}
 		}
 		var rs *Sort
 		switch sf.Ret {
@@ -948,7 +964,7 @@ func (ev *Ev) applySpecFn(sf *SpecFn, args []*SExpr) *Val {
 		case "str":
 			rs = SStr
 		case "arr":
-			rs = SArr(SInt, SInt)
+			rs = SInt
 		default:
 			specFail("spec fn %s: unsupported result sort %s", sf.Name, sf.Ret)
 		}
@@ -1044,6 +1060,21 @@ func (ev *Ev) applyIfaceMethod(recv *Val, name string, args []*SExpr, e *SExpr) 
 	}
 	specFail("no method %s", name)
 	return nil
+}
+
+// arrAsInt is the little-endian integer value of a fixed-size byte array (the representation of `arr` in specifications).
+func arrAsInt(v *Val) *Term {
+	at, ok := under(v.T).(*types.Array)
+	if !ok || at.Len() > 64 {
+		specFail("array value of type %v cannot be used as a specification-level byte array", v.T)
+	}
+	sum := Num(0)
+	for i := int64(0); i < at.Len(); i++ {
+		el := Select(v.X, Num(i))
+		elemRangeFact(el, at.Elem())
+		sum = Add(sum, Mul(el, Pow2(uint(8*i))))
+	}
+	return sum
 }
 
 type bview struct{ arr, off, ln *Term }
@@ -1169,7 +1200,7 @@ func modelSort(s string) *Sort {
 	case "str":
 		return SStr
 	case "arr", "bytes":
-		return SArr(SInt, SInt)
+		return SInt // fixed-size byte arrays are represented by their little-endian integer value in specifications
 	}
 	if strings.HasPrefix(s, "map[") {
 		j := strings.Index(s, "]")
